@@ -59,6 +59,27 @@ def module_sha(mod, qual=None, inlined=()):
     return hashlib.sha256("\n".join(parts).encode()).hexdigest()
 
 
+CORES_PATH = os.path.join(HERE, "contracts", "CORES.json")
+_cores = None
+
+
+def cores():
+    """recorded proof cores: {"<pid>|<contract key>": {"sha256": ..., "module_sha256": ..., "cores": {obligation key: [hypothesis indices]}}}"""
+    global _cores
+    if _cores is None:
+        if os.path.exists(CORES_PATH):
+            with open(CORES_PATH) as fh:
+                _cores = json.load(fh)
+        else:
+            _cores = {}
+    return _cores
+
+
+def save_cores():
+    with open(CORES_PATH, "w") as fh:
+        json.dump(cores(), fh, indent=0, sort_keys=True)
+
+
 def entry_key(pid, target):
     return f"{pid}|{target}"
 
@@ -69,6 +90,7 @@ def record(pid, target, sha, modsha, counts, inlined):
 
 
 def save():
+    save_cores()
     with open(PATH, "w") as fh:
         json.dump(load(), fh, indent=1, sort_keys=True)
 
